@@ -117,7 +117,8 @@ def build_zone(ex, st, N, T, pfx="z", hints=True, second_half=True, spacing=None
     W(176, 8, z.hint1); W(184, 8, z.hint2)
     z.off = []; z.dst = []; z.abi = []
     for t in range(T):
-        o = ex.input("%s_off%d" % (pfx, t), 32, -86399, 86399)
+        OB = int(os.environ.get("VERIF_OFF_BOUND", "86400"))   # Load keeps offsets strictly inside +-24h; fixed-offset zones reach exactly +-24h
+        o = ex.input("%s_off%d" % (pfx, t), 32, -OB, OB)
         dflag = ex.input("%s_dst%d" % (pfx, t), 8, 0, 1); ai = ex.input("%s_abbr%d" % (pfx, t), 8, 0, 255)
         # abbr_index is an unsigned byte in memory: store it in the signed representation of i8
         z.off.append(o); z.dst.append(dflag); z.abi.append(ai)
